@@ -35,6 +35,8 @@ ENCODINGS = [
     ("str-a-b", ("a", "b"), "unlabeled", str),
     ("object-none", ("a", "b"), None, object),
     ("int-minus5-3", (-5, 3), 99, int),
+    # (the NaN sentinel as a numpy scalar - what `y[i]` or `y.dtype.type("nan")` gives; np.float64 subclasses float)
+    ("float-npnan", (0.0, 1.0), np.float64("nan"), float),
 ]
 
 
